@@ -62,6 +62,36 @@ Theorem C14_ser_fmt_literal_comma_dependent :
 Proof. exact ser_fmt_literal_comma_dependent. Qed.
 Print Assumptions C14_ser_fmt_literal_comma_dependent.
 
+(* ---- per thread, concurrently.  ser_spec is a function of the job's data alone: it has no
+   locale, no thread and no shared-state argument.  In the concurrent system — every thread under
+   its own numeric locale `tl t`, any interleaving `sch` of serializer calls with localeconv()
+   calls of arbitrary threads overwriting the one shared struct lconv, any initial content of that
+   struct — the outputs are exactly the specification applied to the jobs in order: threads cannot
+   influence each other's texts (the serializer as written never reads the shared cell). *)
+Theorem C14_ser_concurrent_indep : forall (tl : nat -> numloc) (cell0 : byte) (sch : list sched_ev),
+  jobs_one_conversion sch ->
+  conc_run tl cell0 sch = map ser_spec (jobs_of sch).
+Proof. exact ser_concurrent_indep. Qed.
+Print Assumptions C14_ser_concurrent_indep.
+
+Theorem C14_ser_concurrent_nonvacuous :
+  let tl := fun t => match t with O => NumComma | _ => NumC end in
+  conc_run tl 0 [SClobber 0; SJob (job_1_5 0); SClobber 1; SJob (job_1_5 0); SJob (job_1_5 1); SClobber 0; SJob (job_1_5 1)]
+  = [[49; 46; 53]; [49; 46; 53]; [49; 46; 53]; [49; 46; 53]].
+Proof. exact ser_concurrent_example. Qed.
+Print Assumptions C14_ser_concurrent_nonvacuous.
+
+(* contrast with witness: a fix-up that reads the separator from the shared struct lconv is right
+   single-threaded and wrong once another thread's localeconv() got in between *)
+Theorem C14_cell_variant_interference :
+  double_text_cell CH_COMMA true false [49; 44; 53] = [49; 46; 53] /\
+  double_text_cell CH_DOT true false [49; 46; 53] = [49; 46; 53] /\
+  double_text_cell CH_DOT true false [49; 44; 53] = [49; 44; 53; 46; 48] /\
+  double_text_cell CH_COMMA true false [51; 46; 49; 52] = [51; 46; 49; 52] /\
+  double_text_cell CH_DOT true false [51; 44; 49; 52] = [51; 44; 49; 52; 46; 48].
+Proof. exact cell_variant_interference. Qed.
+Print Assumptions C14_cell_variant_interference.
+
 (* ---- parser: the locale protocol over the regenerated exits *)
 
 (* the translator recognised the shape of json_tokener_parse_ex *)
